@@ -287,6 +287,8 @@ pub fn exec_line(line: &str) -> String {
         "HIST" => run_history(fields[1], &fields[2..], |_, _| None).0.join(" ;; "),
         "REG" => exec_reg(&fields[1..]),
         "ANG" => exec_ang(&fields[1..]),
+        "GRID" => exec_grid(&fields[1..]),
+        "GRIDS" => exec_grids(&fields[1..]),
         "KP" => {
             let (rc, out) = run_kp(&fields[1..]);
             format!("rc={} out={}", rc, escape(&out))
@@ -393,5 +395,111 @@ pub fn run_kp(fields: &[&str]) -> (i32, String) {
     match out {
         Ok(o) => (if o.status.success() { 0 } else { 1 }, String::from_utf8_lossy(&o.stdout).to_string()),
         Err(_) => (-1, String::new()),
+    }
+}
+
+pub fn unhex(s: &str) -> Vec<u8> {
+    (0..s.len() / 2).map(|i| u8::from_str_radix(&s[2 * i..2 * i + 2], 16).unwrap_or(0)).collect()
+}
+
+pub fn decode_grid(fmt: &str, payload: &str) -> Result<std::sync::Arc<dyn Grid>, Error> {
+    if fmt == "gravsoft" {
+        Ok(std::sync::Arc::new(BaseGrid::gravsoft(unescape(payload).as_bytes())?))
+    } else {
+        Ok(std::sync::Arc::new(Ntv2Grid::new(&unhex(payload))?))
+    }
+}
+
+pub fn parse_points(s: &str) -> Vec<Coor4D> {
+    if s.is_empty() {
+        return vec![];
+    }
+    s.split(';')
+        .map(|p| {
+            let v: Vec<f64> = p.split(',').map(parse_f).collect();
+            Coor4D([v[0], v[1], 0., 0.])
+        })
+        .collect()
+}
+
+pub fn dump_at(r: Option<Coor4D>) -> String {
+    match r {
+        Some(c) => dump_data(&[c]),
+        None => "none".to_string(),
+    }
+}
+
+fn exec_grid(fields: &[&str]) -> String {
+    match decode_grid(fields[0], fields[1]) {
+        Err(e) => format!("err {}", err_class(&e)),
+        Ok(g) => {
+            let m = parse_f(fields[2]);
+            let ats: Vec<String> = parse_points(fields[3]).iter().map(|p| dump_at(g.at(p, m))).collect();
+            format!("ok bands={} at={}", g.bands(), ats.join(";"))
+        }
+    }
+}
+
+fn exec_grids(fields: &[&str]) -> String {
+    let k: usize = fields[0].parse().unwrap_or(0);
+    let mut grids = vec![];
+    for i in 0..k {
+        match decode_grid(fields[1 + 2 * i], fields[2 + 2 * i]) {
+            Ok(g) => grids.push(g),
+            Err(_) => return "err decode".to_string(),
+        }
+    }
+    let null = fields[1 + 2 * k] == "1";
+    parse_points(fields[2 + 2 * k]).iter().map(|p| dump_at(grids_at(&grids, p, null))).collect::<Vec<_>>().join(";")
+}
+
+/// a context serving in-memory grids by name, everything else as `Minimal`
+pub struct GridCtx {
+    pub inner: Minimal,
+    pub grids: BTreeMap<String, std::sync::Arc<dyn Grid>>,
+    pub ops: std::sync::Mutex<BTreeMap<OpHandle, std::sync::Arc<Op>>>,
+}
+
+impl Context for GridCtx {
+    fn new() -> Self {
+        GridCtx { inner: Minimal::new(), grids: BTreeMap::new(), ops: std::sync::Mutex::new(BTreeMap::new()) }
+    }
+    fn op(&mut self, definition: &str) -> Result<OpHandle, Error> {
+        // instantiate against `self`, so that grid look-ups come here
+        let op = Op::new(definition, self)?;
+        let id = op.id;
+        self.ops.lock().unwrap().insert(id, std::sync::Arc::new(op));
+        Ok(id)
+    }
+    fn apply(&self, op: OpHandle, direction: Direction, operands: &mut dyn CoordinateSet) -> Result<usize, Error> {
+        let o = self.ops.lock().unwrap().get(&op).cloned().ok_or(Error::General("unknown id"))?;
+        Ok(o.apply(self, operands, direction))
+    }
+    fn globals(&self) -> BTreeMap<String, String> {
+        self.inner.globals()
+    }
+    fn steps(&self, _op: OpHandle) -> Result<&Vec<String>, Error> {
+        Err(Error::General("not supported"))
+    }
+    fn params(&self, _op: OpHandle, _index: usize) -> Result<ParsedParameters, Error> {
+        Err(Error::General("not supported"))
+    }
+    fn register_op(&mut self, name: &str, constructor: OpConstructor) {
+        self.inner.register_op(name, constructor)
+    }
+    fn register_resource(&mut self, name: &str, definition: &str) {
+        self.inner.register_resource(name, definition)
+    }
+    fn get_op(&self, name: &str) -> Result<OpConstructor, Error> {
+        self.inner.get_op(name)
+    }
+    fn get_resource(&self, name: &str) -> Result<String, Error> {
+        self.inner.get_resource(name)
+    }
+    fn get_blob(&self, name: &str) -> Result<Vec<u8>, Error> {
+        self.inner.get_blob(name)
+    }
+    fn get_grid(&self, name: &str) -> Result<std::sync::Arc<dyn Grid>, Error> {
+        self.grids.get(name).cloned().ok_or(Error::NotFound(name.to_string(), ": Grid".to_string()))
     }
 }
